@@ -124,5 +124,10 @@ def obligations(tier):
     from harness import c04
     obs.append(Ob('connection-names-unique', 'symx', 'over every open/close/message history on the connection-id interface names are A, B, C.. in creation order and never repeat (closed connections keep theirs)',
                   FUNCS_M[-1:] + FUNCS_L[2:], 'all sequences of <= %d operations over 3 connection ids' % (4 if tier != 'quick' else 3), c04.lifecycle, cases=[2, 3] if tier == 'quick' else [2, 3, 4]))
+    from harness import objtable
+    obs.append(Ob('labels-distinct-over-histories', 'symx', 'one object-table step from an arbitrary valid table (C02\'s obligation): incarnation index = creation order, so no two objects of a connection share id+letters',
+                  objtable.FUNCS, 'ids symbolic incl. the server-range boundary; the C02 step restricted to messages that create objects', objtable.step,
+                  cases=[('C02', 'other', ('new',), 2, 2), ('C02', 'other', ('new', 'new'), 1, 2), ('C02', 'other', ('new', 'obj'), 1, 2), ('C02', 'delete_id', ('int', 'new'), 1, 2)], stubs=objtable.STUBS))
+    obs.append(Ob('long-reuse-labels', 'symx', 'an id handed out up to 703 times: labels a..z, aa.. without repeats', objtable.FUNCS, '27..703 creations', objtable.long_reuse, cases=[(28, True), (703, False)]))
     obs.append(Ob('label-as-matcher-reachable', 'symx', 'reachability twin', FUNCS_M, '', twin, cases=[('conn+obj', 1, 7, 0)], expect_cex=True))
     return obs
